@@ -1,14 +1,17 @@
 import AdaptiveModel.Drv.Seq
+import AdaptiveModel.Drv.Runner
 /-!
 Line-protocol driver: `lake env lean --run Driver.lean < ops.txt`.
 Each input line is `<component> <op> <args…>`; one output line per input line.
 -/
 structure All where
   seq : Seq.State Int := Seq.init 0
+  run : Runner.State := Runner.init { ntasks := 1, retries := 0, raiseIf := true, blocking := true, doLog := false }
 
 def stepAll (a : All) (line : String) : All × String :=
   match (line.trimAscii.toString.splitOn " ").filter (· ≠ "") with
   | "seq" :: rest => let (s, o) := Seq.Drv.stepLine a.seq rest; ({ a with seq := s }, o)
+  | "run" :: rest => let (s, o) := Runner.Drv.stepLine a.run rest; ({ a with run := s }, o)
   | _ => (a, "bad-component")
 
 partial def loop (h : IO.FS.Stream) (out : IO.FS.Stream) (a : All) : IO Unit := do
